@@ -705,19 +705,138 @@ def bgPosSeg0 (seg : List ATok) : List ATok × Bool :=
     if seg.length == 1 || seg.length == 2 then bgPosKeywords seg else (seg, false)
   else if seg.length == 1 || seg.length == 2 then bgPosKeywords seg else (seg, false)
 
+/-! ### the same rewrite on a layer that is a valid `<bg-position>`, in structured form
+
+`bgPosSeg0` follows the index arithmetic of the Go code and is total.  For layers that *are* valid positions
+(`Spec.position` defined) the same input/output behaviour is described below by shape — keyword groups instead of
+indices — which is the form the preservation theorem is proved about; the correspondence stage enumerates every
+valid shape × offset class through both the real code and this definition. -/
+
+open Verif.Spec.CssValue (PKw pkwOf position)
+
+/-- a percentage offset the code can subtract from 100: `ParseInt` consumes the whole number -/
+def flippable (o : Tok) : Option Int :=
+  if o.tt == .percentage && (parseIntPrefix o.data.dropLast).2 == o.data.length - 1 then
+    some (parseIntPrefix o.data.dropLast).1
+  else none
+
+def flipTok (o : Tok) (n : Int) : Tok := .mk o.tt (intDigits (100 - n) ++ ['%']) o.args
+
+def tZero : Tok := tNum ['0']
+def t100 : Tok := tPct (S "100%")
+def t50 : Tok := tPct (S "50%")
+/-- `Token{css.NumberToken, n50pBytes}`: the 50% the code writes for `center` next to a vertical offset -/
+def tNum50 : Tok := tNum (S "50%")
+
+/-- what one axis (keyword, optional offset) resolves to -/
+inductive AxRes where
+  | val (t : Tok)      -- a single offset from the left / top edge
+  | center
+  | stuck              -- right/bottom with an offset that is not a whole percentage
+  deriving Repr
+
+/-- resolution of a keyword group, and the tokens it is written with when the layer stays in keyword form -/
+def resolveAxis (k : PKw) (kt : Tok) (o : Option Tok) : AxRes × List Tok :=
+  match k, o with
+  | .left, none => (.val tZero, [kt])
+  | .top, none => (.val tZero, [kt])
+  | .left, some o => (.val o, [kt, o])
+  | .top, some o => (.val o, [kt, o])
+  | .right, none => (.val t100, [kt])
+  | .bottom, none => (.val t100, [kt])
+  | .right, some o =>
+    match flippable o with
+    | some n => (.val (flipTok o n), [.mk kt.tt (S "left") kt.args, flipTok o n])
+    | none => (.stuck, [kt, o])
+  | .bottom, some o =>
+    match flippable o with
+    | some n => (.val (flipTok o n), [.mk kt.tt (S "top") kt.args, flipTok o n])
+    | none => (.stuck, [kt, o])
+  | .center, none => (.center, [kt])
+  | .center, some o => (.stuck, [kt, o])
+
+/-- `0%`-like percentages become `0` -/
+def pctZero (t : Tok) : Tok := if t.tt == .percentage && t.data.head? == some '0' then tZero else t
+
+/-- the last loop of the case on one or two resolved offsets -/
+def finishVals : List Tok → List Tok
+  | [x] => [pctZero x]
+  | [x, y] => if y.tt == .percentage && y.data == S "50%" then [pctZero x] else [pctZero x, pctZero y]
+  | l => l
+
+def isHorizontalKw (k : PKw) : Bool := k == .left || k == .right
+def isVerticalKw (k : PKw) : Bool := k == .top || k == .bottom
+
+/-- two keyword groups in textual order → the rewritten layer -/
+def assemble (k1 : PKw) (kt1 : Tok) (o1 : Option Tok) (k2 : PKw) (kt2 : Tok) (o2 : Option Tok) : List Tok :=
+  let r1 := resolveAxis k1 kt1 o1
+  let r2 := resolveAxis k2 kt2 o2
+  let firstIsH := isHorizontalKw k1 || isVerticalKw k2
+  let (h, v) := if firstIsH then (r1.1, r2.1) else (r2.1, r1.1)
+  match h, v with
+  | .val a, .val b => finishVals [a, b]
+  | .val a, .center => finishVals [a]
+  | .center, .val b => finishVals [tNum50, b]
+  | _, _ => r1.2 ++ r2.2
+
+/-- a zero offset is dropped first -/
+def dropZero (o : Tok) : Option Tok := if isZero o then none else some o
+
+/-- keyword → value in the one- and two-value forms -/
+def kwValue (first : Bool) (t : Tok) : Option Tok :=
+  match pkwOf t with
+  | some .left => some tZero
+  | some .top => some tZero
+  | some .right => some t100
+  | some .bottom => some t100
+  | some .center => if first then some t50 else none
+  | none => some (pctZero t)
+
+/-- the rewrite of a layer that is a valid `<bg-position>`; the flag is the `break` of the Go loop -/
+def bgPosClean (seg : List Tok) : List Tok × Bool :=
+  match seg with
+  | [a] =>
+    match pkwOf a with
+    | some .top => ([a], true)
+    | some .bottom => ([a], true)
+    | _ => ((kwValue true a).toList, false)
+  | [a0, b0] =>
+    let swap := pkwOf a0 == some .top || pkwOf a0 == some .bottom || pkwOf b0 == some .left || pkwOf b0 == some .right
+    let (a, b) := if swap then (b0, a0) else (a0, b0)
+    let second : Option Tok :=
+      if pkwOf b == none && b.tt == .percentage && b.data == S "50%" then none else kwValue false b
+    ((kwValue true a).toList ++ second.toList, false)
+  | [a, b, c] =>
+    match pkwOf a, pkwOf b, pkwOf c with
+    | some ka, none, some kc => (assemble ka a (dropZero b) kc c none, false)
+    | some ka, some kb, none => (assemble ka a none kb b (dropZero c), false)
+    | _, _, _ => (seg, false)
+  | [a, b, c, d] =>
+    match pkwOf a, pkwOf c with
+    | some ka, some kc => (assemble ka a (dropZero b) kc c (dropZero d), false)
+    | _, _ => (seg, false)
+  | _ => (seg, false)
+
+/-- one layer: the structured description where the layer is a valid position, the index-faithful one otherwise -/
+def bgPosLayer (seg : List Tok) : List Tok × Bool :=
+  if (position seg).isSome then bgPosClean seg
+  else
+    let r := bgPosSeg0 (seg.map annot)
+    (r.1.map (·.1), r.2)
+
 /-- the `start`/`end` loop over comma-separated layers; a single `top`/`bottom` layer ends it (`break`) -/
-def bgPosLayers : List ATok → List ATok → List ATok
-  | cur, [] => if cur.isEmpty then [] else (bgPosSeg0 cur.reverse).1
+def bgPosLayers : List Tok → List Tok → List Tok
+  | cur, [] => if cur.isEmpty then [] else (bgPosLayer cur.reverse).1
   | cur, t :: r =>
-    if isComma t.1 then
+    if isComma t then
       if cur.isEmpty then t :: bgPosLayers [] r
       else
-        let (seg, stop) := bgPosSeg0 cur.reverse
+        let (seg, stop) := bgPosLayer cur.reverse
         if stop then seg ++ t :: r else seg ++ t :: bgPosLayers [] r
     else bgPosLayers (t :: cur) r
 
 /-- `background-position` -/
-def minifyBgPosition (vs : List Tok) : List Tok := (bgPosLayers [] (vs.map annot)).map (·.1)
+def minifyBgPosition (vs : List Tok) : List Tok := bgPosLayers [] vs
 
 /-! ## minifyProperty -/
 
